@@ -7,7 +7,7 @@ Helper lemmas for the text-level round trip (`Props/C06Text.lean`): lexing a ren
   number / `#n` literal, never is the second char of a double operator; number-start chars are not
   word-start chars; the chars `read_symbol` dispatches on start neither a word nor a number;
 * `Reads upper w` — `readItem`, started on the spelling of `w` followed by the end of the text or a
-  space, returns exactly the token of `w` and stops exactly behind the spelling; one lemma per
+  blank char, returns exactly the token of `w` and stops exactly behind the spelling; one lemma per
   clause of `Word.Valid` (`reads_word`, `reads_num`, `reads_str1`, …), collected in `valid_reads`;
 * `lexLoop_render` — the induction over the word list (any fuel above the length of the text);
 * `expect_getElem`, `render_at` — the fields of the expected tokens and that the spelling stands
